@@ -223,6 +223,12 @@ func (c *fmtCtx) native(t types.Type, v value, verb byte) interface{} {
 			}
 		}
 		return out
+	case *Chan:
+		// a channel prints as its address under every verb: distinct per object
+		if x == nil {
+			return addrFmt("<nil>")
+		}
+		return addrFmt(fmt.Sprintf("%p", x))
 	case *ssa.Function, *closure:
 		return "0xfunc"
 	case poison:
@@ -245,6 +251,10 @@ func (s structFmt) Format(f fmt.State, verb rune) {
 	}
 	f.Write([]byte("}"))
 }
+
+type addrFmt string
+
+func (a addrFmt) Format(f fmt.State, verb rune) { f.Write([]byte(a)) }
 
 type ptrTo struct{ inner interface{} }
 
